@@ -622,7 +622,7 @@ fn gen_c20(seed: u64, idx: usize, tier: Tier) -> C20Scenario {
         script.behav.push(Behav { command: cf.command.clone(), target: cf.target.clone(), outs, code: 0, exit_pause_ms: 0, early_exit: false, hold_pipes_ms: 0, outs_again: vec![] });
     }
     // one scenario in twenty: one task prints a single newline-terminated line of 2.2-3.2 MiB
-    if !heavy_stall && rng.chance(1, 20) {
+    if !heavy_stall && rng.chance(1, 12) {
         let bi = rng.below(script.behav.len());
         let fd = if rng.chance(1, 2) { 1u8 } else { 2 };
         let n = 2_300_000 + rng.below(1_000_000);
@@ -632,7 +632,16 @@ fn gen_c20(seed: u64, idx: usize, tier: Tier) -> C20Scenario {
         }
         s.push('\n');
         let at = rng.below(script.behav[bi].outs.len() + 1);
-        script.behav[bi].outs.insert(at, OutStep { fd, hex: hex(s.as_bytes()), pause_ms: 0, close: false });
+        if rng.chance(1, 2) {
+            // the line arrives in two pieces with several flush intervals between them (a blob dumped slowly):
+            // more than 64 KiB of it are pending without a newline when a tick fires
+            let cut = 70_000 + rng.below(400_000);
+            let (a, b) = s.as_bytes().split_at(cut.min(s.len() - 1));
+            script.behav[bi].outs.insert(at, OutStep { fd, hex: hex(b), pause_ms: 90, close: false });
+            script.behav[bi].outs.insert(at, OutStep { fd, hex: hex(a), pause_ms: 0, close: false });
+        } else {
+            script.behav[bi].outs.insert(at, OutStep { fd, hex: hex(s.as_bytes()), pause_ms: 0, close: false });
+        }
     }
     script.strategy = Strategy::Uniform;
     script.sched_seed = rng.next_u64();
@@ -745,7 +754,8 @@ fn exec_c20(sc: &C20Scenario) -> Outcome {
             return out;
         }
     };
-    let (pre, blocks) = parse_blocks(&cap);
+    // C20's outputs are newline-terminated text: every header starts a line
+    let (pre, blocks) = crate::logparse::parse_blocks_strict(&cap);
     if !pre.is_empty() {
         out.violate("block_structure", "bytes_before_stream_header", format!("the listener printed bytes before its stream header: {:?}", String::from_utf8_lossy(&pre[..pre.len().min(120)])));
         return out;
